@@ -117,7 +117,9 @@ theorem runAuth_err {fx : Facts} {a : Authr} {env : Env} {details : Dict} {scrip
           · simp at h; subst h; rfl
           · split at h
             · simp at h; subst h; rfl
-            · exact andThen_err h (fun e' he => exchange_err he) (fun sig e' he => csDecide_err he)
+            · split at h
+              · simp at h; subst h; rfl
+              · exact andThen_err h (fun e' he => exchange_err he) (fun sig e' he => csDecide_err he)
 
 theorem authClient_err {fx : Facts} {rc : RealmCfg} {env : Env} {details : Dict} {script : List Arrival} {e : Why}
     (h : (authClient fx rc env details script).res = .error e) : e.isAuth = true := by
